@@ -219,6 +219,90 @@ pub fn scalar_char_empty() {
     }
 }
 
+
+// ---- C05, text of the domain errors: BOUNDED (native execution only; String building is outside CBMC's practical reach) ----
+#[cfg(not(kani))]
+mod text {
+    use crate::support::nd;
+    use crate::oblige;
+    use deserr::{DeserializeError, ErrorKind, IntoValue, MergeWithError, ValuePointerRef};
+    use serde_json::{json, Value as J};
+    use std::ops::ControlFlow;
+    /// captures the detail message of an Unexpected report (anything else: a marker)
+    pub struct Msg(pub String);
+    impl MergeWithError<Msg> for Msg { fn merge(_s: Option<Self>, o: Msg, _l: ValuePointerRef) -> ControlFlow<Self, Self> { ControlFlow::Break(o) } }
+    impl DeserializeError for Msg {
+        fn error<V: IntoValue>(_s: Option<Self>, e: ErrorKind<V>, _l: ValuePointerRef) -> ControlFlow<Self, Self> {
+            ControlFlow::Break(Msg(match e { ErrorKind::Unexpected { msg } => msg, _ => "<other kind>".to_string() }))
+        }
+    }
+    fn tick(s: &str) -> String { format!("`{s}`") }
+    /// integer payloads around every bound
+    fn payloads() -> Vec<(i128, J)> {
+        let mut v: Vec<(i128, J)> = Vec::new();
+        for b in [8u32, 16, 32, 63, 64] {
+            let p = 1u128 << b;
+            for d in [-1i128, 0, 1] { let x = p as i128 + d; if x <= u64::MAX as i128 { v.push((x, json!(x as u64))); } }
+            for d in [-1i128, 0, 1] { let x = -(p as i128) / 2 + d; if x >= i64::MIN as i128 && x < 0 { v.push((x, json!(x as i64))); } }
+        }
+        v.push((0, json!(0))); v.push((127, json!(127))); v.push((128, json!(128))); v.push((-129, json!(-129))); v.push((70000, json!(70000))); v.push((-70000, json!(-70000)));
+        v
+    }
+    macro_rules! int_case { ($t:ty, $bt:ty, $min:expr, $max:expr, $nonzero:expr, $n:expr, $doc:expr) => {{
+        let r = deserr::deserialize::<$t, J, Msg>($doc);
+        let (min, max): (i128, i128) = ($min, $max);
+        let (mins, maxs) = (<$bt>::MIN.to_string(), <$bt>::MAX.to_string());   // the bounds as the target type prints them (u128::MAX does not fit the i128 used for the comparison; no payload reaches it)
+        let inrange = $n >= min && $n <= max && !($nonzero && $n == 0);
+        match r {
+            Ok(_) => { oblige!(inrange, "C05:ok_iff_in_domain"); }
+            Err(Msg(m)) => {
+                oblige!(!inrange, "C05:ok_iff_in_domain");
+                // a negative integer is not an admissible *kind* for an unsigned target: kind error (decided by the Kani harnesses), no detail message
+                if min == 0 && $n < 0 { oblige!(m == "<other kind>", "C05:kind_error_when_the_kind_is_wrong"); }
+                else if $nonzero && $n == 0 { oblige!(m.contains("zero") && (m.contains(&tick(&maxs)) || m.contains(&tick(&mins))), "C05:domain_error_identifies_what_was_received_and_the_violated_bound"); }
+                else if $n > max { oblige!(m.contains(&tick(&$n.to_string())) && m.contains(&tick(&maxs)), "C05:domain_error_identifies_what_was_received_and_the_violated_bound"); }
+                else { oblige!(m.contains(&tick(&$n.to_string())) && m.contains(&tick(&mins)), "C05:domain_error_identifies_what_was_received_and_the_violated_bound"); }
+            }
+        }
+    }}; }
+    pub fn scalar_messages() {
+        use std::num::*;
+        let ps = payloads();
+        let (n, doc) = ps[nd::below(ps.len() as u8) as usize].clone();
+        match nd::below(24) {
+            0 => int_case!(u8, u8, 0, u8::MAX as i128, false, n, doc), 1 => int_case!(u16, u16, 0, u16::MAX as i128, false, n, doc), 2 => int_case!(u32, u32, 0, u32::MAX as i128, false, n, doc),
+            3 => int_case!(u64, u64, 0, u64::MAX as i128, false, n, doc), 4 => int_case!(u128, u128, 0, i128::MAX, false, n, doc), 5 => int_case!(usize, usize, 0, usize::MAX as i128, false, n, doc),
+            6 => int_case!(i8, i8, i8::MIN as i128, i8::MAX as i128, false, n, doc), 7 => int_case!(i16, i16, i16::MIN as i128, i16::MAX as i128, false, n, doc), 8 => int_case!(i32, i32, i32::MIN as i128, i32::MAX as i128, false, n, doc),
+            9 => int_case!(i64, i64, i64::MIN as i128, i64::MAX as i128, false, n, doc), 10 => int_case!(i128, i128, i128::MIN, i128::MAX, false, n, doc), 11 => int_case!(isize, isize, isize::MIN as i128, isize::MAX as i128, false, n, doc),
+            12 => int_case!(NonZeroU8, u8, 0, u8::MAX as i128, true, n, doc), 13 => int_case!(NonZeroU16, u16, 0, u16::MAX as i128, true, n, doc), 14 => int_case!(NonZeroU32, u32, 0, u32::MAX as i128, true, n, doc),
+            15 => int_case!(NonZeroU64, u64, 0, u64::MAX as i128, true, n, doc), 16 => int_case!(NonZeroU128, u128, 0, i128::MAX, true, n, doc), 17 => int_case!(NonZeroUsize, usize, 0, usize::MAX as i128, true, n, doc),
+            18 => int_case!(NonZeroI8, i8, i8::MIN as i128, i8::MAX as i128, true, n, doc), 19 => int_case!(NonZeroI16, i16, i16::MIN as i128, i16::MAX as i128, true, n, doc), 20 => int_case!(NonZeroI32, i32, i32::MIN as i128, i32::MAX as i128, true, n, doc),
+            21 => int_case!(NonZeroI64, i64, i64::MIN as i128, i64::MAX as i128, true, n, doc), 22 => int_case!(NonZeroI128, i128, i128::MIN, i128::MAX, true, n, doc), _ => int_case!(NonZeroIsize, isize, isize::MIN as i128, isize::MAX as i128, true, n, doc),
+        }
+    }
+    /// char / String contents: strings of 0..=3 scalar values over a pool with ASCII, 2-, 3- and 4-byte characters
+    pub fn scalar_text_contents() {
+        const POOL: [char; 5] = ['a', '\u{e9}', '\u{20ac}', '\u{1f600}', '`'];
+        let len = nd::below(4) as usize;
+        let mut s = String::new();
+        for _ in 0..len { s.push(POOL[nd::below(5) as usize]); }
+        match deserr::deserialize::<String, J, Msg>(json!(s.clone())) { Ok(t) => { oblige!(t == s, "C05:result_equals_the_input_textually"); } Err(_) => { oblige!(false, "C05:ok_iff_in_domain"); } }
+        match deserr::deserialize::<char, J, Msg>(json!(s.clone())) {
+            Ok(c) => { oblige!(len == 1 && s.chars().next() == Some(c), "C05:ok_iff_in_domain"); }
+            Err(Msg(m)) => {
+                oblige!(len != 1, "C05:ok_iff_in_domain");
+                oblige!(if len == 0 { m.contains("empty") } else { m.contains(&len.to_string()) && m.contains(&tick(&s)) }, "C05:domain_error_identifies_what_was_received_and_the_violated_bound");
+            }
+        }
+    }
+}
+#[cfg(not(kani))]
+pub use text::{scalar_messages, scalar_text_contents};
+#[cfg(kani)]
+pub fn scalar_messages() {}
+#[cfg(kani)]
+pub fn scalar_text_contents() {}
+
 pub fn registry() -> Vec<(&'static str, crate::Body)> {
     vec![
         ("scalar_u8", scalar_u8 as crate::Body), ("scalar_u16", scalar_u16), ("scalar_u32", scalar_u32), ("scalar_u64", scalar_u64),
@@ -228,7 +312,7 @@ pub fn registry() -> Vec<(&'static str, crate::Body)> {
         ("scalar_nzu128", scalar_nzu128), ("scalar_nzusize", scalar_nzusize), ("scalar_nzi8", scalar_nzi8), ("scalar_nzi16", scalar_nzi16),
         ("scalar_nzi32", scalar_nzi32), ("scalar_nzi64", scalar_nzi64), ("scalar_nzi128", scalar_nzi128), ("scalar_nzisize", scalar_nzisize),
         ("scalar_f32", scalar_f32), ("scalar_f64", scalar_f64), ("scalar_float_exact_roundtrip", scalar_float_exact_roundtrip),
-        ("scalar_bool", scalar_bool), ("scalar_unit", scalar_unit), ("scalar_string_kinds", scalar_string_kinds), ("scalar_char_kinds", scalar_char_kinds), ("scalar_char_empty", scalar_char_empty),
+        ("scalar_bool", scalar_bool), ("scalar_unit", scalar_unit), ("scalar_string_kinds", scalar_string_kinds), ("scalar_char_kinds", scalar_char_kinds), ("scalar_char_empty", scalar_char_empty), ("scalar_messages", scalar_messages), ("scalar_text_contents", scalar_text_contents),
     ]
 }
 
